@@ -1,2 +1,3 @@
+pub mod mutate;
 pub mod registry;
 pub mod typed;
